@@ -81,6 +81,8 @@ pub struct GenParams {
     pub abs_paths: bool,
     /// allow non-ASCII prefixes and text
     pub unicode: bool,
+    /// favour tag directives and text lines
+    pub tag_boost: bool,
 }
 
 impl Default for GenParams {
@@ -98,6 +100,7 @@ impl Default for GenParams {
             decoys: false,
             abs_paths: true,
             unicode: true,
+            tag_boost: false,
         }
     }
 }
@@ -488,7 +491,7 @@ fn gen_source(g: &mut Gen, plans: &mut Vec<SrcPlan>, me: usize) -> String {
             if g.p.allow_run { 14 } else { 0 },        // 2 run
             9,                                         // 3 write
             if g.p.allow_temp { 7 } else { 0 },        // 4 temp
-            if g.p.allow_tags { 8 } else { 0 },        // 5 tag
+            if !g.p.allow_tags { 0 } else if g.p.tag_boost { 24 } else { 8 }, // 5 tag
             4,                                         // 6 empty
             if g.p.allow_deps { 4 } else { 0 },        // 7 after
         ];
